@@ -247,6 +247,8 @@ def local_derives_from_call(func, name, call_pred, _seen=None):
         # True: derives from the call; None: neutral (falsy const); False: foreign
         if isinstance(e, ast.Constant):
             return None if not e.value else False
+        if isinstance(e, ast.Call) and isinstance(e.func, ast.Name) and e.func.id in ("bool", "int", "abs") and len(e.args) == 1 and not e.keywords:
+            return val(e.args[0])
         if isinstance(e, ast.Call):
             return True if call_pred(e) else False
         if isinstance(e, ast.Name):
